@@ -445,7 +445,14 @@ func TestGovcExcerptReplay(t *testing.T) {
 			}
 		}
 		body.WriteString("</article></div></body></html>")
-		res, err := ApplyForReader(strings.NewReader(body.String()), nil)
+		res, err := func() (res *Result, err error) {
+			defer func() {
+				if r := recover(); r != nil {
+					err = fmt.Errorf("panic: %v", r)
+				}
+			}()
+			return ApplyForReader(strings.NewReader(body.String()), nil)
+		}()
 		evals++
 		if err != nil {
 			t.Errorf("GOVC-FAIL %s :: excerpt case returned error %v", key, err)
@@ -454,8 +461,8 @@ func TestGovcExcerptReplay(t *testing.T) {
 		textWords := strings.Fields(res.Text)
 		htmlWords := strings.Fields(govcNodeText(res.Node))
 		attrCase := strings.HasPrefix(key, "attr")
-		if len(textWords) > 0 && !strings.HasPrefix(key, "tab") && !attrCase {
-			nontrivial++ // table cases (keys tab/..., tabx/...) and non-visible text cases (attr/..., attrx/...) are counted by their own, stricter criterion below
+		if len(textWords) > 0 && !strings.HasPrefix(key, "tab") && !attrCase && !strings.HasPrefix(key, "emb") {
+			nontrivial++ // table cases (keys tab/..., tabx/...), non-visible text cases (attr/..., attrx/...) and embed cases (emb/..., embx/...) are counted by their own, stricter criterion below
 		}
 		if evals <= 2 {
 			fmt.Printf("GOVC-SAMPLE blocks %s -> %d words in Result.Text, %d words in Result.Node\n", key, len(textWords), len(htmlWords))
@@ -664,7 +671,102 @@ func TestGovcExcerptReplay(t *testing.T) {
 			runAttr(fmt.Sprintf("attrx/%s+%s", b.name, c.name), c, []govcBlock{fill[0], b, c.block, fill[1]})
 		}
 	}
-	fmt.Printf("GOVC-CASES evaluations=%d distinct_nontrivial=%d rule=%s\n", evals, nontrivial, fmt.Sprintf("generated articles: every ordered pair of 19 block kinds between plain paragraphs, each kind alone, all kinds together; plus %d table shapes (10 ways of marking up the table: ARIA grid/treegrid/row/gridcell roles, th, thead+tbody+tfoot, caption, summary, none, presentation x 13 cell contents: plain, inline markup, paragraphs, lists, br, rowspan/colspan, hidden span, nested tables in 6 arrangements) x {between paragraphs, alone, two in a row, inside a div with inline text} and 8 of them crossed with every block kind in both orders; plus %d carriers of text in non-visible places (figures: 9 caption kinds none/empty/white space/nbsp/comment/hidden/text/text+link/link only x 5 image markups img alt, img alt+title, picture, linked img, img+aria; images with alt/title in paragraphs, links, divs, list items, table cells; title/aria-label/data-*/cite/datetime/href/value/placeholder attributes on inline, block, table and form elements; meta content, html/body attributes, comments, script/style/template content) x {between, alone, first, last, in a div, section, blockquote, list item, table cell}, figure and image carriers also crossed with every block kind in both orders; unique tokens per block; distinct by construction; Result.Text and text nodes of Result.Node checked; non-trivial = some text was extracted, for table cases: words of the table were extracted (measured: %d table cases emitted a <table> element, %d of them with a nested table), for non-visible text cases: the carrier reached the result (measured: %d cases, in %d of them an attribute of Result.Node still holds the non-visible tokens)", nTab, nCarriers, asTable, asTableNested, attrKept, attrInOutputAttr))
+	// ---- blocks that become NON-TEXT elements but contain words (appended; the keys above are unchanged) ----
+	// Tweets that are not rendered yet (a block quote with the words of the tweet), YouTube / Vimeo / Twitter
+	// iframes, <video>, <object>, <audio>, <canvas> with fallback content, figures with long captions, data tables
+	// with wordy cells. The element is registered as ONE element of the web document (embed, video, figure, table)
+	// whose output already holds its words; if its content is walked as well, every word comes out twice. run()
+	// checks membership, multiplicity (at most once per view; the text inside an embed placeholder counts for the
+	// HTML view) and order of all tokens. Fallback content (tokens with the infix QQF: content of iframe, video,
+	// object, audio, canvas, which a browser shows only when it cannot show the element itself) is not visible
+	// text of the source: it must not reach Result.Text (key .../fallback-text), and in Result.Node it may only
+	// stay inside the media element or the embed placeholder it belongs to (key .../fallback-html).
+	embKept, embPlaceholder := 0, 0
+	runEmb := func(key string, blocks []govcBlock, embs ...govcC02Embed) {
+		res := run(key, blocks)
+		if res == nil || res.Node == nil {
+			return
+		}
+		for _, w := range strings.Fields(res.Text) {
+			if strings.Contains(w, "QQF") {
+				t.Errorf("GOVC-FAIL %s/fallback-text :: Result.Text contains the word %q, which occurs in the source only as fallback content of an iframe/video/object/audio/canvas element (shown by a browser only when it cannot show the element itself), not in its visible text", key, w)
+				break
+			}
+		}
+		if w := govcC02FallbackOutside(res.Node, false); w != "" {
+			t.Errorf("GOVC-FAIL %s/fallback-html :: a text node of Result.Node outside any media element or embed placeholder contains the word %q, which occurs in the source only as fallback content of an iframe/video/object/audio/canvas element, not in its visible text", key, w)
+		}
+		var sb strings.Builder
+		html.Render(&sb, res.Node)
+		out := map[string]bool{}
+		for _, w := range strings.Fields(res.Text + " " + govcNodeText(res.Node)) {
+			out[strings.Trim(w, ".,;:()[]\"'")] = true
+		}
+		kept := false
+		for _, e := range embs {
+			if e.marker != "" && strings.Contains(sb.String(), e.marker) {
+				kept = true
+			}
+			for _, w := range e.block.visible {
+				if out[w] {
+					kept = true
+				}
+			}
+		}
+		if kept {
+			nontrivial++
+			embKept++
+			if strings.Contains(sb.String(), "embed-placeholder") {
+				embPlaceholder++
+			}
+		}
+	}
+	nEmb := len(govcC02Embeds("k"))
+	for i := 0; i < nEmb; i++ {
+		e, e2 := govcC02Embeds("ea")[i], govcC02Embeds("eb")[i]
+		fill := govcBlocks("f")
+		runEmb("emb/between/"+e.name, []govcBlock{fill[0], e.block, fill[1]}, e)
+		if e.once {
+			continue
+		}
+		runEmb("emb/alone/"+e.name, []govcBlock{e.block}, e)
+		runEmb("emb/first/"+e.name, []govcBlock{e.block, fill[0], fill[1]}, e)
+		runEmb("emb/last/"+e.name, []govcBlock{fill[0], fill[1], e.block}, e)
+		runEmb("emb/twin/"+e.name, []govcBlock{fill[0], e.block, e2.block, fill[1]}, e, e2)
+		pre, post := govcTok("ec", 12), govcTok("ed", 12)
+		in := func(name, open, close string) govcBlock {
+			var vis []string
+			vis = append(vis, pre...)
+			vis = append(vis, e.block.visible...)
+			vis = append(vis, post...)
+			return govcBlock{name + "+" + e.name, vis, open + e.block.html + close}
+		}
+		jp, jq := strings.Join(pre, " "), strings.Join(post, " ")
+		runEmb("emb/in-div/"+e.name, []govcBlock{fill[0], in("div", "<div>"+strings.Join(pre[:8], " ")+" <em>"+strings.Join(pre[8:], " ")+"</em>", jq+"</div>"), fill[1]}, e)
+		runEmb("emb/in-section/"+e.name, []govcBlock{fill[0], in("section", "<section><h2>"+strings.Join(pre[:4], " ")+"</h2><p>"+strings.Join(pre[4:], " ")+"</p>", "<p>"+jq+"</p></section>"), fill[1]}, e)
+		runEmb("emb/in-blockquote/"+e.name, []govcBlock{fill[0], in("bq", "<blockquote><p>"+jp+"</p>", "<p>"+jq+"</p></blockquote>"), fill[1]}, e)
+		runEmb("emb/in-li/"+e.name, []govcBlock{fill[0], in("li", "<ul><li>"+jp+"</li><li>", "</li><li>"+jq+"</li></ul>"), fill[1]}, e)
+		if !e.noInlineLi {
+			runEmb("emb/in-li-text/"+e.name, []govcBlock{fill[0], in("litext", "<ol><li>"+jp+" ", " "+jq+"</li></ol>"), fill[1]}, e)
+		}
+		if !e.table && !e.fallback {
+			runEmb("emb/in-td/"+e.name, []govcBlock{fill[0], in("td", "<table><thead><tr><th>"+pre[0]+"</th><th>"+pre[1]+"</th></tr></thead><tbody><tr><td>"+pre[2]+"</td><td>"+strings.Join(pre[3:], " ")+"</td></tr><tr><td>", "</td><td>"+strings.Join(post[:10], " ")+"</td></tr><tr><td>"+post[10]+"</td><td>"+post[11]+"</td></tr></tbody></table>"), fill[1]}, e)
+		}
+	}
+	// representative kinds crossed with every other block kind, in both orders
+	for i := 0; i < nEmb; i++ {
+		if e := govcC02Embeds("k")[i]; !e.cross {
+			continue
+		}
+		for k := range kinds {
+			e := govcC02Embeds("ea")[i]
+			b := govcBlocks("b")[k]
+			fill := govcBlocks("f")
+			runEmb(fmt.Sprintf("embx/%s+%s", e.name, b.name), []govcBlock{fill[0], e.block, b, fill[1]}, e)
+			runEmb(fmt.Sprintf("embx/%s+%s", b.name, e.name), []govcBlock{fill[0], b, e.block, fill[1]}, e)
+		}
+	}
+	fmt.Printf("GOVC-CASES evaluations=%d distinct_nontrivial=%d rule=%s\n", evals, nontrivial, fmt.Sprintf("generated articles: every ordered pair of 19 block kinds between plain paragraphs, each kind alone, all kinds together; plus %d table shapes (10 ways of marking up the table: ARIA grid/treegrid/row/gridcell roles, th, thead+tbody+tfoot, caption, summary, none, presentation x 13 cell contents: plain, inline markup, paragraphs, lists, br, rowspan/colspan, hidden span, nested tables in 6 arrangements) x {between paragraphs, alone, two in a row, inside a div with inline text} and 8 of them crossed with every block kind in both orders; plus %d carriers of text in non-visible places (figures: 9 caption kinds none/empty/white space/nbsp/comment/hidden/text/text+link/link only x 5 image markups img alt, img alt+title, picture, linked img, img+aria; images with alt/title in paragraphs, links, divs, list items, table cells; title/aria-label/data-*/cite/datetime/href/value/placeholder attributes on inline, block, table and form elements; meta content, html/body attributes, comments, script/style/template content) x {between, alone, first, last, in a div, section, blockquote, list item, table cell}, figure and image carriers also crossed with every block kind in both orders; unique tokens per block; distinct by construction; Result.Text and text nodes of Result.Node checked; non-trivial = some text was extracted, for table cases: words of the table were extracted (measured: %d table cases emitted a <table> element, %d of them with a nested table), for non-visible text cases: the carrier reached the result (measured: %d cases, in %d of them an attribute of Result.Node still holds the non-visible tokens); plus %d kinds of blocks that become non-text elements but contain words (not yet rendered tweets in 6 markups, rendered tweet / YouTube / YouTube-nocookie / Vimeo / other iframes with fallback text, YouTube and other <object> with fallback content, <video> with source, track and fallback text, alone and in a figure, figures with long captions in 5 shapes, data tables with wordy cells, audio, canvas) x {between, alone, first, last, two in a row, in a div with inline text, section, blockquote, list item, list item with inline text, table cell}, 6 of them crossed with every block kind in both orders; every word at most once per view (text inside an embed placeholder counts for the HTML view), fallback content neither in Result.Text nor outside its media element / placeholder in Result.Node; non-trivial = the element reached the result (its id / URL in Result.Node or its words in the result; measured: %d cases, %d of them with an embed placeholder)", nTab, nCarriers, asTable, asTableNested, attrKept, attrInOutputAttr, nEmb, embKept, embPlaceholder))
 }
 
 // govcC02Carrier is a block that carries tokens (infix QQH) in non-visible places of the source.
@@ -919,6 +1021,220 @@ func govcC02Carriers(pfx string) []govcC02Carrier {
 	doc("head-script-style", "<script type=\"application/ld+json\">{\"@type\":\"Article\",\"description\":\""+h("jsonld", 4)+"\"}</script><style>body:before{content:\""+h("csscontent", 2)+"\"}</style>", "", "")
 	doc("html-body-attrs", "", " lang=\"en\" data-theme=\""+h("datatheme", 2)+"\" title=\""+h("htmltitle", 2)+"\"", " title=\""+h("bodytitle", 2)+"\" aria-label=\""+h("bodylabel", 2)+"\" data-page=\""+h("datapage", 2)+"\" class=\""+h("class", 2)+"\"")
 	return cs
+}
+
+// govcC02Embed is a block that the distiller turns into a non-text element (embed, video, figure, table) or
+// drops as a whole, although it contains words.
+type govcC02Embed struct {
+	name       string
+	block      govcBlock // visible = all tokens of the element in document order, fallback content (QQF) included
+	marker     string    // unique string (tweet / video id, image or media URL) that proves the element reached Result.Node
+	cross      bool      // also crossed with every block kind
+	once       bool      // only placed between paragraphs (fails on the unchanged tree: one key per finding)
+	table      bool      // is a table itself: not placed inside a table cell (nested tables are covered by tab/...)
+	noInlineLi bool      // not placed inside a list item between inline text
+	fallback   bool      // has fallback content (QQF tokens): not placed inside a table cell (see the kind youtube-in-td, which is placed once)
+}
+
+func govcC02Embeds(pfx string) []govcC02Embed {
+	nv, nf, nid := 0, 0, 0
+	var vis []string
+	v := func(k int) string { // k visible tokens
+		var r []string
+		for i := 0; i < k; i++ {
+			x := fmt.Sprintf("%sE%04d", pfx, nv)
+			nv++
+			r = append(r, x)
+			vis = append(vis, x)
+		}
+		return strings.Join(r, " ")
+	}
+	f := func(k int) string { // k tokens of fallback content
+		var r []string
+		for i := 0; i < k; i++ {
+			x := fmt.Sprintf("%sQQF%04d", pfx, nf)
+			nf++
+			r = append(r, x)
+			vis = append(vis, x)
+		}
+		return strings.Join(r, " ")
+	}
+	h := func(tag string) string { // a token for an attribute value
+		nf++
+		return fmt.Sprintf("%sQQH%s%04d", pfx, tag, nf)
+	}
+	seed := 0
+	for _, c := range pfx {
+		seed = seed*37 + int(c)
+	}
+	numID := func() string { // a fresh numeric id
+		nid++
+		return fmt.Sprintf("%d%03d%06d", 7000000+seed%1000000, nid, 424242)
+	}
+	alnumID := func() string {
+		nid++
+		return fmt.Sprintf("%sVid%03dxZ", pfx, nid)
+	}
+	var es []govcC02Embed
+	add := func(name string, cross bool, build func() (string, string)) *govcC02Embed {
+		vis = nil
+		html, marker := build()
+		es = append(es, govcC02Embed{name: name, block: govcBlock{name, vis, html}, marker: marker, cross: cross, fallback: strings.Contains(html, "QQF")})
+		return &es[len(es)-1]
+	}
+	widgets := "<script async src=\"https://platform.twitter.com/widgets.js\" charset=\"utf-8\"></script>"
+
+	// tweets that the widget script has not rendered yet
+	add("tweet", true, func() (string, string) {
+		id := numID()
+		return "<blockquote class=\"twitter-tweet\" data-lang=\"en\"><p lang=\"en\" dir=\"ltr\">" + v(22) + " <a href=\"https://t.co/" + h("tco") + "\">" + v(1) + "</a></p> " + v(2) + " (" + v(1) + ") <a href=\"https://twitter.com/harbour/status/" + id + "?ref_src=twsrc%5Etfw\">" + v(3) + "</a></blockquote>" + widgets, id
+	})
+	add("tweet-short", false, func() (string, string) {
+		id := numID()
+		return "<blockquote class=\"twitter-tweet\"><p>" + v(3) + "</p><a href=\"https://twitter.com/u/status/" + id + "\">" + v(2) + "</a></blockquote>", id
+	})
+	add("tweet-long", true, func() (string, string) {
+		id := numID()
+		return "<blockquote class=\"twitter-tweet tw-align-center\" data-conversation=\"none\"><p lang=\"en\" dir=\"ltr\">" + v(30) + " <a href=\"https://twitter.com/hashtag/x?src=hash\">" + v(1) + "</a><br><br>" + v(25) + " <b>" + v(3) + "</b> <a href=\"https://twitter.com/other\">" + v(1) + "</a></p><p>" + v(20) + "</p> " + v(3) + " <a href=\"https://twitter.com/harbour/status/" + id + "\">" + v(3) + "</a></blockquote>" + widgets, id
+	})
+	add("tweet-in-div", false, func() (string, string) {
+		id := numID()
+		return "<div class=\"tweet-wrap\"><blockquote class=\"twitter-tweet\"><p lang=\"en\" dir=\"ltr\">" + v(18) + "</p> " + v(2) + " <a href=\"//twitter.com/harbour/status/" + id + "/\">" + v(2) + "</a></blockquote></div>", id
+	})
+	add("tweet-video", false, func() (string, string) {
+		id := numID()
+		return "<blockquote class=\"twitter-tweet\" data-media-max-width=\"560\"><p lang=\"en\" dir=\"ltr\">" + v(15) + " <a href=\"https://t.co/" + h("tco") + "\">" + v(1) + "</a></p> " + v(2) + " <a href=\"https://mobile.twitter.com/harbour/statuses/" + id + "\">" + v(3) + "</a></blockquote>", id
+	})
+	add("tweet-no-status-link", false, func() (string, string) { // looks like a tweet but is not recognised as one: an ordinary quote
+		return "<blockquote class=\"twitter-tweet\"><p lang=\"en\" dir=\"ltr\">" + v(25) + "</p> " + v(2) + " <a href=\"https://example.com/harbour/" + numID() + "\">" + v(3) + "</a></blockquote>", ""
+	})
+
+	// iframes with fallback text (the content of an iframe is raw text for the HTML parser: plain words only)
+	add("tweet-rendered", false, func() (string, string) {
+		id := numID()
+		return "<iframe src=\"https://platform.twitter.com/embed/Tweet.html?id=" + id + "\" data-tweet-id=\"" + id + "\" width=550 height=300 title=\"" + h("iframetitle") + "\">" + f(4) + "</iframe>", id
+	})
+	add("youtube", true, func() (string, string) {
+		id := alnumID()
+		return "<iframe width=\"560\" height=\"315\" src=\"https://www.youtube.com/embed/" + id + "?rel=0\" frameborder=\"0\" allowfullscreen title=\"" + h("iframetitle") + "\">" + f(6) + "</iframe>", id
+	})
+	add("youtube-nocookie", false, func() (string, string) {
+		id := alnumID()
+		return "<p>" + v(30) + "</p><iframe src=\"//www.youtube-nocookie.com/embed/" + id + "\" width=640 height=360>" + f(3) + "</iframe><p>" + v(30) + "</p>", id
+	})
+	add("vimeo", false, func() (string, string) {
+		id := numID()
+		return "<iframe src=\"https://player.vimeo.com/video/" + id + "?color=ffffff\" width=\"640\" height=\"360\" allow=\"fullscreen\">" + f(5) + "</iframe><p><a href=\"https://vimeo.com/" + h("vimeohref") + "\">" + v(4) + "</a> " + v(10) + "</p>", id
+	})
+	add("iframe-other", false, func() (string, string) {
+		return "<iframe src=\"https://widgets.example.com/poll/" + numID() + "\" width=400 height=300>" + f(5) + "</iframe>", ""
+	})
+
+	// object and video with fallback content
+	add("youtube-object", false, func() (string, string) {
+		id := alnumID()
+		return "<object width=\"425\" height=\"344\"><param name=\"movie\" value=\"http://www.youtube.com/v/" + id + "&hl=en\"><embed src=\"http://www.youtube.com/v/" + id + "&hl=en\" type=\"application/x-shockwave-flash\" width=\"425\" height=\"344\"></embed><p>" + f(8) + " <a href=\"/get-flash\">" + f(2) + "</a></p></object>", id
+	})
+	o := add("object", false, func() (string, string) {
+		return "<object data=\"/media/" + numID() + ".swf\" type=\"application/x-shockwave-flash\" width=\"400\" height=\"300\"><param name=\"quality\" value=\"high\"><p>" + f(10) + " <a href=\"/get-flash\">" + f(2) + "</a></p><img src=\"/img/noflash.png\" alt=\"" + h("alt") + "\"></object>", ""
+	})
+	o.noInlineLi = true // covered by the kind object-in-li-text below, which is placed once
+	add("video", true, func() (string, string) {
+		m := "clip" + numID()
+		return "<video width=\"640\" height=\"360\" controls poster=\"/img/" + m + ".png\"><source src=\"/media/" + m + ".webm\" type=\"video/webm\"><source src=\"/media/" + m + ".mp4\" type=\"video/mp4\"><track src=\"/media/" + m + ".vtt\" kind=\"subtitles\" srclang=\"en\" label=\"" + h("tracklabel") + "\">" + f(9) + " <a href=\"/media/" + m + ".mp4\">" + f(3) + "</a></video>", m
+	})
+	add("video-in-para", false, func() (string, string) {
+		m := "clip" + numID()
+		return "<p>" + v(20) + " <video src=\"/media/" + m + ".mp4\" controls>" + f(6) + "</video> " + v(20) + "</p>", m
+	})
+	add("video-in-figure", false, func() (string, string) {
+		m := "clip" + numID()
+		return "<figure><video src=\"/media/" + m + ".mp4\" controls><track src=\"/media/" + m + ".vtt\" kind=\"captions\">" + f(6) + "</video><figcaption>" + v(12) + "</figcaption></figure>", m
+	})
+
+	// figures with long captions
+	fig := func(name string, cross bool, build func(img string) string) {
+		add(name, cross, func() (string, string) {
+			m := "fig" + numID()
+			return build("<img src=\"/img/" + m + ".png\" width=600 height=400 alt=\"" + h("alt") + "\">"), m
+		})
+	}
+	fig("figure-long-caption", true, func(img string) string {
+		return "<figure>" + img + "<figcaption>" + v(15) + " <b>" + v(3) + " <i>" + v(2) + "</i></b> " + v(15) + " <a href=\"/credit\">" + v(3) + "</a> " + v(4) + "</figcaption></figure>"
+	})
+	fig("figure-long-caption-nolink", false, func(img string) string {
+		return "<figure>" + img + "<figcaption>" + v(20) + " <em>" + v(5) + "</em> " + v(20) + "</figcaption></figure>"
+	})
+	fig("figure-caption-paras", false, func(img string) string {
+		return "<figure>" + img + "<figcaption><p>" + v(20) + "</p><p>" + v(20) + " <a href=\"/credit\">" + v(2) + "</a></p></figcaption></figure>"
+	})
+	fig("figure-picture-long-caption", false, func(img string) string {
+		return "<figure><picture><source srcset=\"/img/wide.webp\" media=\"(min-width: 600px)\">" + img + "</picture><figcaption>" + v(35) + " <span>" + v(5) + "</span></figcaption></figure>"
+	})
+	fig("figure-text-no-figcaption", false, func(img string) string {
+		return "<figure>" + img + "<p>" + v(30) + "</p></figure>"
+	})
+
+	// data tables with wordy cells
+	tb := add("data-table-words", true, func() (string, string) {
+		return "<table><caption>" + v(8) + "</caption><thead><tr><th>" + v(2) + "</th><th>" + v(3) + "</th><th>" + v(2) + "</th></tr></thead><tbody><tr><td>" + v(4) + "</td><td>" + v(6) + " <b>" + v(2) + "</b></td><td>" + v(5) + "</td></tr><tr><td>" + v(3) + "</td><td><a href=\"/t\">" + v(4) + "</a> " + v(3) + "</td><td>" + v(5) + "<br>" + v(4) + "</td></tr><tr><td>" + v(4) + "</td><td>" + v(7) + "</td><td><em>" + v(6) + "</em></td></tr></tbody></table>", ""
+	})
+	tb.table = true
+	tb = add("data-table-long-cells", false, func() (string, string) {
+		return "<table><caption>" + v(5) + "</caption><thead><tr><th>" + v(1) + "</th><th>" + v(1) + "</th></tr></thead><tbody><tr><td>" + v(2) + "</td><td><p>" + v(25) + "</p><p>" + v(25) + "</p></td></tr><tr><td>" + v(2) + "</td><td>" + v(40) + "</td></tr></tbody><tfoot><tr><td>" + v(2) + "</td><td>" + v(12) + "</td></tr></tfoot></table>", ""
+	})
+	tb.table = true
+
+	// findings on the unchanged tree, one key each
+	x := add("object-in-li-text", false, func() (string, string) { // the words around a dropped element inside a list item are glued together in Result.Node
+		return "<ul><li>" + v(12) + " <object data=\"/media/" + numID() + ".swf\" type=\"application/x-shockwave-flash\"><p>" + f(4) + "</p></object> " + v(12) + "</li></ul>", ""
+	})
+	x.once = true
+	x = add("youtube-in-td", false, func() (string, string) { // the fallback content of a media element inside a data table is emitted as text
+		id := alnumID()
+		return "<table><thead><tr><th>" + v(1) + "</th><th>" + v(1) + "</th></tr></thead><tbody><tr><td>" + v(2) + "</td><td><iframe src=\"https://www.youtube.com/embed/" + id + "\" width=560 height=315>" + f(4) + "</iframe></td></tr><tr><td>" + v(2) + "</td><td>" + v(3) + "</td></tr></tbody></table>", id
+	})
+	x.once = true
+	x = add("audio", false, func() (string, string) { // the fallback content of <audio> is emitted as text
+		m := "sound" + numID()
+		return "<audio controls src=\"/media/" + m + ".mp3\">" + f(8) + " <a href=\"/media/" + m + ".mp3\">" + f(2) + "</a></audio>", m
+	})
+	x.once = true
+	x = add("canvas", false, func() (string, string) { // the fallback content of <canvas> is emitted as text
+		return "<canvas width=\"300\" height=\"200\" id=\"chart" + numID() + "\">" + f(8) + "</canvas>", ""
+	})
+	x.once = true
+	return es
+}
+
+// govcC02FallbackOutside returns the first fallback token (infix QQF) in a text node of n that is not inside a
+// media element (iframe, video, audio, object, canvas) or an embed placeholder; "" if there is none.
+func govcC02FallbackOutside(n *html.Node, inside bool) string {
+	if n.Type == html.ElementNode {
+		switch n.Data {
+		case "iframe", "video", "audio", "object", "canvas":
+			inside = true
+		case "div":
+			for _, a := range n.Attr {
+				if a.Key == "class" && strings.Contains(a.Val, "embed-placeholder") {
+					inside = true
+				}
+			}
+		}
+	}
+	if n.Type == html.TextNode && !inside {
+		for _, w := range strings.Fields(n.Data) {
+			if strings.Contains(w, "QQF") {
+				return w
+			}
+		}
+	}
+	for c := n.FirstChild; c != nil; c = c.NextSibling {
+		if w := govcC02FallbackOutside(c, inside); w != "" {
+			return w
+		}
+	}
+	return ""
 }
 
 func govcC02HasElement(n *html.Node, tag string) bool {
